@@ -14,7 +14,10 @@ def explore_history(args):
     (k3, k2, base, idx, seed, opts, nops, modes, max_points, nested, big, tier) = args
     rng = vlib.Rng(seed)
     work = os.path.join(base, 'h%d' % idx); os.makedirs(work, exist_ok=True)
-    ops, batches = k3lib.gen_write_history(rng, nops=nops, big_batches=big)
+    if isinstance(nops, tuple):          # corpus history: (ops, batches)
+        ops, batches = nops
+    else:
+        ops, batches = k3lib.gen_write_history(rng, nops=nops, big_batches=big)
     rc, out, err, evs, shadow = k3lib.run_traced(k3, os.path.join(work, 'db'), opts, ops, work)
     calls = k2lib.parse_trace(out)
     problems = []; stats = {'points': 0, 'images': 0, 'distinct_images': 0, 'recoveries': 0, 'followups': 0, 'nested': 0,
@@ -22,6 +25,7 @@ def explore_history(args):
     if rc != 0:
         problems.append({'kind': 'harness-crash', 'detail': err[-500:]})
         return {'seed': seed, 'opts': opts, 'ops': ops, 'problems': problems, 'stats': stats}
+    problems += check_protocol(evs, shadow, calls, ops, None, k2=k2, opts=opts, batches=batches, work=work, seed=seed, stats=stats)
     info = k3lib.batch_positions(evs, ops, batches, calls)
     points = list(range(1, len(evs) + 1))
     if len(points) > max_points:
@@ -38,7 +42,9 @@ def explore_history(args):
         for mode in modes:
             img = k3lib.image_at(evs, shadow, p, mode, rng)
             stats['images'] += 1
-            key = (k3lib.image_key(img), mode == 'written')
+            # the same bytes can be judged differently later (more batches acknowledged / more logs deleted)
+            key = (k3lib.image_key(img), mode == 'written', sum(1 for e in evs[:p] if e['k'] == 'Z'),
+                   sum(1 for e in evs[:p] if e['k'] == 'U'))
             if key in seen: continue
             seen.add(key); stats['distinct_images'] += 1
             if 'CURRENT' not in img and not any(n.startswith('MANIFEST') for n in img):
@@ -82,12 +88,35 @@ def explore_history(args):
     shutil.rmtree(work, ignore_errors=True)
     return {'seed': seed, 'opts': opts, 'ops': ops, 'problems': problems, 'stats': stats}
 
+def corpus_history(lines):
+    """corpus entry: list of harness ops; batches are recognised from 'batch <ops> <sync>' lines whose first update is a marker key"""
+    batches = []
+    for i, l in enumerate(lines):
+        a = l.split(' ')
+        if a[0] == 'batch':
+            ups = []
+            for t in a[1].split(','):
+                if t[0] == 'p':
+                    k, v = t[1:].split(':', 1); ups.append((bytes.fromhex(k) if k != '-' else b'', v))
+                else:
+                    k = t[1:]; ups.append((bytes.fromhex(k) if k != '-' else b'', None))
+            batches.append({'op_index': i, 'sync': len(a) > 2 and a[2] == '1', 'updates': ups})
+    return (lines, batches)
+
+# F5: an acknowledged unsynced batch, a clean reopen (its log is deleted after CURRENT is switched), power loss before the next fsync
+CORPUS = [
+    ({'write_buffer': 65536, 'reuse_logs': 0}, ['open', 'batch p6d3030303030:@5:1 0', 'reopen', 'batch p6d3030303031:@5:2 0']),
+    ({'write_buffer': 65536, 'reuse_logs': 0}, ['open', 'batch p6d3030303030:@5:1 1', 'batch p6d3030303031:@6:2 0', 'reopen', 'reopen', 'batch p6d3030303032:@5:3 1']),
+]
+
 def run_crash(rep, prop, tier, seed, modes, nhist, nops, max_points, opts_list, big=False, known_sig=None):
     out = vlib.scratch_dir()
     lib = vlib.build_lib(out, 'nothread')
     k3 = vlib.build_k3(out, 'nothread', lib=lib); k2 = vlib.build_k2(out, 'nothread', lib=lib)
     rng = vlib.Rng(seed ^ 0xBADC0DE)
     jobs = []
+    for j, (copts, lines) in enumerate(CORPUS):        # corpus first, every crash point
+        jobs.append((k3, k2, out, 1000 + j, 0, dict(copts), corpus_history(lines), modes, 100000, False, big, tier))
     for i in range(nhist):
         opts = dict(opts_list[i % len(opts_list)])
         jobs.append((k3, k2, out, i, rng.next(), opts, nops, modes, max_points, False, big, tier))
@@ -111,3 +140,65 @@ def run_crash(rep, prop, tier, seed, modes, nhist, nops, max_points, opts_list, 
         r0 = results[0]
         rep.sample({'options': r0['opts'], 'ops_head': [o[:120] for o in r0['ops'][:8]], 'stats': r0['stats']})
     return results
+
+
+# ------------------------------------------------------------------ record-level protocol (coq/theories/FsModel.v)
+def check_protocol(evs, shadow, calls, ops, model, k2=None, opts=None, batches=None, work=None, seed=0, stats=None, samples=10):
+    """Lift the real syscall trace to the record-level trace of FsModel.v (checks/k3lift.py):
+    (1) wf_protocol (rules R0..R7, the hypotheses of the C02/C03/C05/C17b theorems) must hold: `fs_wf` answers ok;
+    (2) at ~samples crash points the model's recovery of the lifted written image must keep exactly the
+        batches (marker keys) that the real ldb_open keeps on the byte-exact written image.
+    Returns a list of problems."""
+    import k3lift
+    out = []
+    m = k2lib.Model(model or vlib.ensure_model())
+    try:
+        try:
+            L = k3lift.lift(evs, shadow, m, calls, ops, opts or {})
+        except k3lift.LiftError as e:
+            return [{'kind': 'protocol-lift-failed', 'detail': str(e)}]
+        if m.ask('fs_load ' + L.text).split(' ')[0] != 'ok':
+            return [{'kind': 'protocol-lift-failed', 'detail': 'model driver rejected the lifted trace'}]
+        r = m.ask('fs_wf =')
+        if stats is not None:
+            stats['lifted_events'] = stats.get('lifted_events', 0) + len(L.events)
+        if r != 'ok':
+            a = r.split(' ')
+            idx = int(a[2]) if len(a) > 2 and a[2].isdigit() else -1
+            real = next((i for i in range(len(evs)) if L.posmap[i] <= idx < L.posmap[i + 1]), None)
+            out.append({'kind': 'protocol-rule-violated',
+                        'detail': '%s at lifted event %d (%s), real event %s %s' % (a[1] if len(a) > 1 else r, idx,
+                                  L.events[idx][:80] if 0 <= idx < len(L.events) else '?', real, evs[real] if real is not None else '')})
+            return out
+        if k2 is None or not batches or work is None:
+            return out
+        rng = vlib.Rng(seed ^ 0xF5F5F5)
+        info = k3lib.batch_positions(evs, ops, batches, calls)
+        keys = ','.join(k3lift.khex(b['updates'][0][0]) for b in batches)
+        pts = [p for p in range(1, len(evs) + 1) if L.posmap[p] != L.posmap[p - 1]] or [len(evs)]
+        pick = []
+        while pts and len(pick) < samples: pick.append(pts.pop(rng.below(len(pts))))
+        for p in sorted(pick):
+            img = k3lib.image_at(evs, shadow, p, 'written')
+            if 'CURRENT' not in img: continue
+            rc2, rcalls, _ = k3lib.recover_and_read(k2, img, shadow, os.path.join(work, 'imgp'), opts)
+            real_ok = rc2 == 0 and len(rcalls) >= 2 and rcalls[0]['ret'] is not None and rcalls[0]['ret'].split(' ')[0] == '0'
+            mr = m.ask('fs_present_written = %d %s' % (L.posmap[p], keys))
+            if stats is not None: stats['model_recoveries'] = stats.get('model_recoveries', 0) + 1
+            where = {'crash_point': p, 'mode': 'written', 'event': evs[p - 1]}
+            if not real_ok:
+                if mr != 'fail':
+                    out.append(dict(where, kind='protocol-model-disagrees', detail='real open fails (%s) but the model recovers' % (rcalls[0]['ret'] if rcalls else rc2)))
+                continue
+            if mr == 'fail':
+                out.append(dict(where, kind='protocol-model-disagrees', detail='the model cannot recover the written image but the real open succeeds')); continue
+            content, status = k3lib.scan_to_map(rcalls[1]['ret'])
+            real_present = [1 if b['updates'][0][0] in content else 0 for b in batches]
+            model_present = [int(x) for x in mr.split(' ')[1].split(',')]
+            if real_present != model_present:
+                diff = [i for i, (a, b) in enumerate(zip(real_present, model_present)) if a != b][:8]
+                out.append(dict(where, kind='protocol-model-disagrees', detail='surviving batches differ (real vs model) at batch indices %s' % diff))
+            if len(out) >= 2: break
+    finally:
+        m.close()
+    return out
